@@ -257,10 +257,68 @@ func flattenScenarios(tier string, seed int64, scratch string) ([]*Case, []strin
 			chosen = append(chosen, all[i])
 		}
 	}
+	// names enumerated by MC_Keys (every character-class sequence up to the bound), planted in every role of a few scenarios
+	type forced struct {
+		fs   *flattenScenario
+		name string
+	}
+	forcedNames := map[int]string{}
+	if os.Getenv("VERIF_NOKEYS") == "" {
+		maxLen, nNames := "3", 36
+		if tier == "thorough" {
+			nNames = 819
+		}
+		krun, klines, kerr := runMC("MC_Keys", map[string]string{"MaxLen": maxLen, "Export": "TRUE"}, 10*time.Minute, 8)
+		lastMC["keys"] = krun
+		if kerr != nil || krun == nil || !krun.OK {
+			return nil, []string{"MC_Keys failed"}
+		}
+		byKey := map[string]*flattenScenario{}
+		for _, fs := range all {
+			byKey[fs.Key()] = fs
+		}
+		roleScen := []string{"aux1,object,prop,none,none", "local,object,nested,code,none", "anonprop,object,code,none,none", "selfrec,prim,opbody,prop2,none"}
+		kr := rand.New(rand.NewSource(seed + 991))
+		kr.Shuffle(len(klines), func(i, j int) { klines[i], klines[j] = klines[j], klines[i] })
+		for i, l := range klines {
+			if i >= nNames {
+				break
+			}
+			var ex struct {
+				Name []string `json:"name"`
+			}
+			if json.Unmarshal([]byte(l), &ex) != nil || len(ex.Name) == 0 {
+				continue
+			}
+			nm := strings.Join(ex.Name, "")
+			if nm == "0" || nm == "1" { // plain digits: fine, but keep them distinct from list indices in diagnostics
+				nm = "n" + nm
+			}
+			fs := byKey[roleScen[i%len(roleScen)]]
+			if fs == nil {
+				continue
+			}
+			cp := *fs
+			// deep copy of the documents (bindPlaceholders does not mutate trees, but cases must not share them)
+			cp.Docs = map[string]*Node{}
+			for id, d := range fs.Docs {
+				cp.Docs[id] = d.Clone()
+			}
+			forcedNames[len(chosen)] = nm
+			chosen = append(chosen, &cp)
+		}
+	}
 	cases := []*Case{}
 	errs := []string{}
 	for i, fs := range chosen {
 		g := NewGen(seed*104729+int64(i), GenOpts{PlainNames: i%3 == 1})
+		if nm, ok := forcedNames[i]; ok {
+			// the enumerated name plays every role: target definition, holder property, inner property, holder definition
+			for ph, pre := range map[string]string{"N_1": "", "N_9": "p", "N_3": "q", "N_8": "h", "N_6": "k"} {
+				g.usedConcrete[pre+nm] = true
+				g.Names.Bind(ph, pre+nm)
+			}
+		}
 		b := &Bundle{Docs: fs.Docs, Files: map[string]string{}}
 		for id := range fs.Docs {
 			b.Files[id] = scenarioFiles[id]
@@ -276,7 +334,7 @@ func flattenScenarios(tier string, seed int64, scratch string) ([]*Case, []strin
 				b.Feat.NonPlain = true
 			}
 		}
-		c := &Case{Tid: fmt.Sprintf("s%d", i), Source: "tlc", Seed: seed, Bundle: b, Names: g.Names.ToConcrete, RefStyle: 2, Note: fs.Key()}
+		c := &Case{Tid: fmt.Sprintf("s%d", i), Source: "tlc", Seed: seed, Bundle: b, Names: g.Names.ToConcrete, RefStyle: 2, Note: fs.Key() + forcedNote(forcedNames, i)}
 		if err := c.Materialize(filepath.Join(scratch, c.Tid)); err != nil {
 			errs = append(errs, err.Error())
 			continue
@@ -354,4 +412,11 @@ func min(a, b int) int {
 		return a
 	}
 	return b
+}
+
+func forcedNote(m map[int]string, i int) string {
+	if nm, ok := m[i]; ok {
+		return fmt.Sprintf(" name=%q", nm)
+	}
+	return ""
 }
